@@ -725,6 +725,8 @@ func pinnedCases() []*Case {
 		{Kind: "expr", Pinned: "raw-control-expr", Keys: [][2]string{{"v", b64([]byte("a\x1fb"))}}, Data: []string{b64([]byte("x\x0by"))}, Views: allViews, Runs: 1},
 		// 007 is written as a bare number
 		{Kind: "ext", Pinned: "leading-zero-ext", Matcher: "regex", Pattern: `(?P<v>\d+)`, Lines: []string{b64([]byte("007"))}, Views: allViews, Repeat: 2, Batch: 1, Workers: 1},
+		// member names were written unescaped (a dissect token name is free text up to the closing brace)
+		{Kind: "ext", Pinned: "member-name-unescaped", Matcher: "dissect", Pattern: `%{a"b}|%{c\d}`, Lines: []string{b64([]byte("x|y"))}, Views: allViews, Repeat: 2, Batch: 1, Workers: 1},
 		// named members in map order
 		{Kind: "ext", Pinned: "named-order-ext", Matcher: "regex", Pattern: `(?P<a>\d+) (?P<b>\d+)`, Lines: []string{b64([]byte("1 2"))}, Views: []string{".", ".#"}, Repeat: 200, Batch: 8, Workers: 1},
 		{Kind: "cli", Pinned: "named-order-histo", Matcher: "regex", Pattern: `(?P<a>\d+) (?P<b>\d+) (?P<c>\d+) (?P<d>\d+)`, Lines: []string{b64([]byte("1 2 3 4"))}, Views: []string{"."}, Repeat: 200},
